@@ -925,6 +925,14 @@ func genC12c(g *G, sc *Scenario, tier string) {
 		}
 		sc.Tasks = append(sc.Tasks, ops)
 	}
+	// followers of the latest-only feed: a few entries per page, from the start
+	for rd := g.Range(0, 2); rd > 0; rd-- {
+		var ops []Op
+		for i := g.Range(2, 6); i > 0; i-- {
+			ops = append(ops, Op{K: "readTok", DS: "dsA", Latest: true, Limit: g.PickInt([]int{1, 1, 2, 3, 0})})
+		}
+		sc.Tasks = append(sc.Tasks, ops)
+	}
 	// readers going through the whole change feed, forwards in one call and backwards entry by entry
 	for rd := g.Range(0, 2); rd > 0; rd-- {
 		var ops []Op
